@@ -107,10 +107,15 @@ class _Obj(object):
     pass
 
 
-def run_cpp(p, trace=True):
-    """runs the real parse_sentence; -> dict(status, pops, results, queries) in model units"""
-    tag = numpy.array(p.tags, dtype=numpy.float32).reshape(p.n, p.T) / numpy.float32(SCALE)
-    dep = numpy.array(p.deps, dtype=numpy.float32).reshape(p.n, p.n + 1) / numpy.float32(SCALE)
+def run_cpp(p, trace=True, raw=None):
+    """runs the real parse_sentence; -> dict(status, pops, results, queries) in model units.
+    raw=(tag, dep, penalty): arbitrary float32 score arrays instead of p.tags / p.deps (scores are then
+    reported as floats, outside the exact-arithmetic model)"""
+    if raw is not None:
+        tag, dep = raw[0], raw[1]
+    else:
+        tag = numpy.array(p.tags, dtype=numpy.float32).reshape(p.n, p.T) / numpy.float32(SCALE)
+        dep = numpy.array(p.deps, dtype=numpy.float32).reshape(p.n, p.n + 1) / numpy.float32(SCALE)
     tag = numpy.ascontiguousarray(tag, dtype=numpy.float32)
     dep = numpy.ascontiguousarray(dep, dtype=numpy.float32)
     roots = pyxrt.unordered_set_unsigned()
@@ -147,11 +152,11 @@ def run_cpp(p, trace=True):
         return ('B', item.cat, item.rule_id, 1 if item.head_id == l.head_id else 0, dl, dr)
 
     def finalizer(item, token_id, cache, args):
-        results.append((to_int(item.score()), deriv(item.left)))
+        results.append(((float(item.score()) if raw is not None else to_int(item.score())), deriv(item.left)))
         return 0
 
     cfg = _Obj()
-    cfg.num_tags, cfg.unary_penalty, cfg.beta, cfg.use_beta = p.T, p.penalty / SCALE, p.beta, p.use_beta
+    cfg.num_tags, cfg.unary_penalty, cfg.beta, cfg.use_beta = p.T, (raw[2] if raw is not None else p.penalty / SCALE), p.beta, p.use_beta
     cfg.pruning_size, cfg.nbest, cfg.max_step = p.pruning, p.nbest, p.max_step
     cache = pyxrt.cache_type()
     pops = pyxrt.trace_pops(True) if trace else None
@@ -210,7 +215,8 @@ def random_problem(rng, max_n=5, nbest_max=1, mixed_heads=False, multi=False, be
         p.tags[t] = [p.tags[t][c] if c == keep else -(10 ** 5) for c in range(p.T)]
     p.roots = rng.sample(range(K), rng.randint(1, max(1, K // 2)))
     p.penalty = rng.choice([0, 0, 6, 13, 64])
-    p.pruning = rng.choice([50, 50, 1, 2, 3]) if beam else 50
+    # boundary values included: 0 (no tag is admitted: the sentence must fail), exactly the number of tags
+    p.pruning = rng.choice([50, 50, 1, 2, 3, 0, p.T]) if beam else 50
     p.nbest = rng.randint(1, nbest_max)
     # a step budget far above what these sentences need, but low enough that the model stays cheap even
     # when a (changed) implementation stops much earlier than the model
